@@ -192,7 +192,7 @@ def kernel_failures():
         out.append(dict(kind='harness', observable='translated kernels changed during the run', signature='c01-kernel-stale',
                         detail='coq/Extracted/Kernels.v was regenerated with different content after the Coq build: the '
                                'sources changed during the run; re-run', input=None))
-    for p in res['problems'][:5]:
+    for p in res.get('by_owner', {}).get('C01', res['problems'])[:5]:      # kernels owned by other properties break THEIR ties
         out.append(dict(kind='translator', observable='kernel tie: construct outside the subset of tools/kernel_extract.py',
                         signature='c01-kernel-translation', detail=p, input=dict(kind='kernel', what=p)))
     return out
